@@ -29,9 +29,9 @@ def units():
     common = dict(members=["paseto-core"], package="paseto-core", kani_flags=["--no-assertion-reach-checks"],
                   trusted=["alloc (Vec, Box, Rc, Arc) as compiled by Kani"])
     return [
-        Unit(name="u4_tokens", inject=[(T, "units/u4_core/tokens.rs")], harness_path="tokens::verif", allow_unsafe=True, harnesses=ht,
+        Unit(name="u4_tokens", inject=[(T, "units/u4_core/tokens.rs")], quick_cap=10, harness_path="tokens::verif", allow_unsafe=True, harnesses=ht,
              assumptions=["trait contracts: a version/payload/footer/validator implementation may return any result its signature allows (the abstract instance AbsV/AbsM/AbsF/AbsVal covers every backend)"],
              **common),
-        Unit(name="u4_validation", inject=[(V, "units/u4_core/validation.rs")], harness_path="validation::verif", allow_unsafe=True, harnesses=hv,
+        Unit(name="u4_validation", inject=[(V, "units/u4_core/validation.rs")], quick_cap=10, harness_path="validation::verif", allow_unsafe=True, harnesses=hv,
              assumptions=["leaf validators are arbitrary (symbolic verdicts)"], **common),
     ]
